@@ -1,9 +1,30 @@
 package main
 
+import "strings"
+
 // plans: for every claimed property, what is enumerated in each tier.
 
 func sched(scn string, bound, nshard int, budget float64, params map[string]any) Stage {
 	return Stage{Binary: "badger.coarse", Scenario: scn, Bound: bound, NShard: nshard, BudgetS: budget, Params: params}
+}
+
+func bfs(scn string, depth int, budget float64, params map[string]any, seeds ...[]string) Stage {
+	return Stage{Binary: "badger.coarse", Kind: "bfs", Scenario: scn, Depth: depth, NShard: 16, BudgetS: budget, Params: params, Seeds: seeds, MaxFrontier: 60000}
+}
+
+func seq(s string) []string {
+	if s == "" {
+		return []string{}
+	}
+	return strings.Fields(s)
+}
+
+func prm(kv ...any) map[string]any {
+	m := map[string]any{}
+	for i := 0; i+1 < len(kv); i += 2 {
+		m[kv[i].(string)] = kv[i+1]
+	}
+	return m
 }
 
 var commonAssume = []string{
@@ -12,31 +33,74 @@ var commonAssume = []string{
 	"go1.26.8 toolchain; sync replaced by a channel-based shim with the same blocking semantics",
 }
 
+var planTable = map[string]func(q bool) *Plan{}
+
 func plans(id, tier string) (*Plan, bool) {
-	q := tier != "thorough"
-	switch id {
-	case "C03":
-		p := &Plan{ID: id, Level: "model_checking", Engine: "E-sched",
-			Text: "Every interleaving (up to the stated preemption bound, at the hooked points of the commit pipeline) of concurrent Commit / CommitWith / NewTransaction on the real DB is executed and checked: distinct commit timestamps consistent with real-time order, all-or-nothing visibility per reader, acknowledged commits visible to later readers, failed commits invisible.",
-			Note: "Interleavings are explored at the granularity of the enabled hook points under sequential consistency; small harness (2-3 committers, 2 readers, 3 keys).",
-			Technique: "stateless model checking of the real commit pipeline (controlled scheduler, preemption-bounded DFS)",
-			Rule:   "every schedule of the harness threads over the enabled points with at most <bound> preemptions; distinct = distinct (commit-ts assignment, reader read-ts) outcomes",
-			Assume: commonAssume}
-		if q {
-			p.Stages = []Stage{
-				sched("c03a", 0, 1, 20, nil),
-				sched("c03a", 1, 16, 25, nil),
-				sched("c03a", 2, 16, 30, nil),
-			}
-		} else {
-			p.Stages = []Stage{
-				sched("c03a", 0, 1, 30, nil),
-				sched("c03a", 1, 16, 60, nil),
-				sched("c03a", 2, 16, 300, nil),
-				sched("c03a", 3, 16, 300, nil),
-			}
-		}
-		return p, true
+	f, ok := planTable[id]
+	if !ok {
+		return nil, false
 	}
-	return nil, false
+	p := f(tier != "thorough")
+	p.ID = id
+	if p.Assume == nil {
+		p.Assume = commonAssume
+	}
+	return p, true
+}
+
+func init() {
+	planTable["C03"] = func(q bool) *Plan {
+		p := &Plan{Level: "model_checking", Engine: "E-sched",
+			Text:      "Every interleaving (up to the stated preemption bound, at the hooked points of the commit pipeline) of concurrent Commit / CommitWith / NewTransaction on the real DB is executed and checked: distinct commit timestamps consistent with real-time order, all-or-nothing visibility per reader, acknowledged commits visible to later readers, failed commits invisible.",
+			Note:      "Interleavings are explored at the granularity of the enabled hook points under sequential consistency; small harness (2-3 committers, 2 readers, 3 keys).",
+			Technique: "stateless model checking of the real commit pipeline (controlled scheduler, preemption-bounded DFS)",
+			Rule:      "every schedule of the harness threads over the enabled points with at most <bound> preemptions; distinct = distinct (commit-ts assignment, reader read-ts) outcomes"}
+		if q {
+			p.Stages = []Stage{sched("c03a", 0, 1, 20, nil), sched("c03a", 1, 16, 25, nil), sched("c03a", 2, 16, 30, nil)}
+		} else {
+			p.Stages = []Stage{sched("c03a", 0, 1, 30, nil), sched("c03a", 1, 16, 60, nil), sched("c03a", 2, 16, 300, nil), sched("c03a", 3, 16, 300, nil)}
+		}
+		return p
+	}
+	planTable["C12"] = func(q bool) *Plan {
+		p := &Plan{Level: "model_checking", Engine: "E-seq",
+			Text:      "Breadth-first search over operation sequences (writes, deletes, flush, every compaction the production picker offers to compactor 0 and 1, table ageing, discard-watermark moves) on the real DB; after every transition every key is read by Get and both iterator directions at every timestamp at or above the discard watermark and compared with an MVCC reference model.",
+			Note:      "Small alphabets (2-3 keys), tiny table/level sizes so that multi-level shapes are reached in a few steps; states deduplicated by canonical LSM shape.",
+			Technique: "explicit-state BFS over operation sequences executed on the implementation, reference-model oracle",
+			Rule:      "BFS states = canonical LSM shapes (per level: tables with their (key, version-rank, meta) lists and age class; memtable; watermark position); transitions = operations applied to the real DB"}
+		if q {
+			p.Stages = []Stage{bfs("lsm", 4, 60, prm("oracle", "c12"))}
+		} else {
+			p.Stages = []Stage{bfs("lsm", 6, 600, prm("oracle", "c12"))}
+		}
+		return p
+	}
+
+	lsmPlan := func(text, rule string, quick, thorough []Stage) func(q bool) *Plan {
+		return func(q bool) *Plan {
+			p := &Plan{Level: "model_checking", Engine: "E-seq", Text: text,
+				Note:      "Small alphabets (1-3 keys), tiny table/level sizes so that multi-level shapes are reached in a few steps; states deduplicated by canonical LSM shape; a fresh real DB per transition (replay from scratch).",
+				Technique: "explicit-state BFS over operation sequences executed on the implementation, reference-model oracle",
+				Rule:      rule}
+			if q {
+				p.Stages = quick
+			} else {
+				p.Stages = thorough
+			}
+			return p
+		}
+	}
+	stateRule := "BFS states = canonical LSM shapes (per level: tables with their (key, version, meta) lists and age class; memtable; watermark position); transitions = operations applied to the real DB; every state is non-trivial and distinct by construction"
+	planTable["C13"] = lsmPlan("Same state space as C12 with discard-earlier-versions entries added and NumVersionsToKeep 1, 2 and unlimited; after every transition the AllVersions dump must contain every version the retention rule promises (computed by a reference model from the write history and the current watermark) and nothing that was never written.",
+		stateRule,
+		[]Stage{bfs("lsm", 4, 40, prm("oracle", "c13", "nvk", 1, "keys", 1)), bfs("lsm", 4, 40, prm("oracle", "c13", "nvk", 2, "keys", 1))},
+		[]Stage{bfs("lsm", 6, 300, prm("oracle", "c13", "nvk", 1, "keys", 1)), bfs("lsm", 6, 300, prm("oracle", "c13", "nvk", 2, "keys", 1)), bfs("lsm", 5, 300, prm("oracle", "c13", "nvk", 1000, "keys", 2))})
+	planTable["C14"] = lsmPlan("Same state space as C12 including close/re-open transitions; after every transition: levels >= 1 sorted with disjoint ranges, no user key split across two tables of a level, table ids unique, production validate() passes, in-memory levels == MANIFEST == .sst files on disk; Open after any history succeeds.",
+		stateRule,
+		[]Stage{bfs("lsm", 4, 60, prm("oracle", "c14", "keys", 3, "reopen", true))},
+		[]Stage{bfs("lsm", 6, 600, prm("oracle", "c14", "keys", 3, "reopen", true))})
+	planTable["C36"] = lsmPlan("Managed-mode histories with caller-chosen, non-monotonic commit timestamps (CommitAt and per-entry SetEntryAt through a managed write batch), deletes at chosen timestamps, discard-timestamp moves, flushes and compactions; after every transition reads at every timestamp >= the discard timestamp equal the reference model and Item.Version equals the caller's timestamp.",
+		stateRule,
+		[]Stage{bfs("lsm", 4, 60, prm("oracle", "c36", "keys", 1, "managed_ts", true))},
+		[]Stage{bfs("lsm", 6, 600, prm("oracle", "c36", "keys", 1, "managed_ts", true))})
 }
